@@ -412,6 +412,48 @@ pub fn tabix_file(rng: &mut Rng) -> Vec<u8> {
     w.into_inner().finish().unwrap()
 }
 
+/// a tabix file whose payload stays small (positions below 2^18: short linear indexes)
+pub fn tabix_file_small(rng: &mut Rng) -> Vec<u8> {
+    let nref = rng.range(0, 3) as usize;
+    let names: csi::binning_index::index::header::ReferenceSequenceNames = (0..nref)
+        .map(|i| {
+            let n = rng.below(6) as usize;
+            bstr::BString::from(format!("chr{i}_{}", bases(rng, n)))
+        })
+        .collect();
+    let hdr = csi::binning_index::index::header::Builder::vcf()
+        .set_reference_sequence_names(names)
+        .build();
+    let unplaced = rng.chance(2, 3);
+    let index: tabix::Index = build_index_lim::<LinearIndex>(rng, 14, 5, nref, Some(hdr), unplaced, (1 << 18) - 1);
+    let mut w = tabix::io::Writer::new(Vec::new());
+    w.write_index(&index).unwrap();
+    w.into_inner().finish().unwrap()
+}
+
+/// a tabix file with sequence names in the header but NO reference sequence (built through the
+/// public index builder; the writer accepts it)
+pub fn tabix_file_no_refs(rng: &mut Rng) -> Vec<u8> {
+    let n = rng.range(1, 4) as usize;
+    let names: csi::binning_index::index::header::ReferenceSequenceNames = (0..n)
+        .map(|i| {
+            let k = rng.below(4) as usize;
+            bstr::BString::from(format!("c{i}{}", bases(rng, k)))
+        })
+        .collect();
+    let hdr = csi::binning_index::index::header::Builder::vcf()
+        .set_reference_sequence_names(names)
+        .build();
+    let mut b = binning_index::Index::<LinearIndex>::builder().set_header(hdr).set_reference_sequences(Vec::new());
+    if rng.chance(1, 2) {
+        b = b.set_unplaced_unmapped_record_count(rng.below(1000));
+    }
+    let index: tabix::Index = b.build();
+    let mut w = tabix::io::Writer::new(Vec::new());
+    w.write_index(&index).unwrap();
+    w.into_inner().finish().unwrap()
+}
+
 pub fn gzi_file(rng: &mut Rng) -> Vec<u8> {
     let n = rng.range(0, 8);
     let (mut c, mut u) = (0u64, 0u64);
